@@ -14,7 +14,7 @@ import (
 
 func init() {
 	register(&Rule{ID: "R-unify-seed", Floor: 1, Run: ruleR3UnifySeed,
-		Doc: "the analyzer constructs that unify the types of a list of alternatives in a loop (match arms, list-literal elements — siblings of the two-branch constructs if/else and try/catch) keep a *unification accumulator*: a local of the analyzer's Type interface that lives across the iterations, is an operand of a TypeCheck call inside the loop and is assigned inside the loop from a term of the current alternative (the seed). Sibling agreement, as the code stands today in every member: the seed is guarded by a test of the accumulator's own STATE (it still holds its placeholder kind unknown/never/any, or a loop-carried flag says no type was fixed yet), so that candidates that fix no type (never: the alternative diverges; unknown: it had an error) are skipped and every later alternative is checked against the first real type. A seed guarded only by the POSITION of the alternative (`idx == 0`, a counter, a length) or not guarded at all freezes whatever the first alternative happened to have: if it diverges the result stays `never`, TypeCheck against never always succeeds, the remaining alternatives are not unified and follow-up checks against the result (missing default branch) cannot fire — ill-typed programs are accepted (C03), and the engines' unchecked value assertions then fail (C02)."})
+		Doc: "the analyzer constructs that unify the types of a list of alternatives in a loop (match arms, list-literal elements — siblings of the two-branch constructs if/else and try/catch) keep a *unification accumulator*: a local of the analyzer's Type interface that lives across the iterations, is an operand of a TypeCheck call inside the loop and is assigned inside the loop from a term of the current alternative (the seed). Sibling agreement, as the code stands today in every member: the seed is guarded by a test of the accumulator's own STATE (it still holds its placeholder kind unknown/never/any, or a loop-carried flag says no type was fixed yet), so that candidates that fix no type (never: the alternative diverges; unknown: it had an error) are skipped and every later alternative is checked against the first real type. A seed guarded only by the POSITION of the alternative (`idx == 0`, a counter, a length) or not guarded at all freezes whatever the first alternative happened to have: if it diverges the result stays `never`, TypeCheck against never always succeeds, the remaining alternatives are not unified and follow-up checks against the result (missing default branch) cannot fire — ill-typed programs are accepted (C03), and the engines' unchecked value assertions then fail (C02). The TypeCheck may sit in a helper the accumulator is handed to; when check and seed of one iteration are moved together into a helper that receives the accumulator by pointer, that helper's body is the iteration and the pointer parameter the accumulator."})
 }
 
 func ruleR3UnifySeed(c *Ctx) []Obligation {
@@ -22,13 +22,74 @@ func ruleR3UnifySeed(c *Ctx) []Obligation {
 	p := c.Pkg("homescript/analyzer")
 	info := p.TypesInfo
 	var out []Obligation
-	isTypeIface := func(t types.Type) bool {
+	typeIface := func(t types.Type) (isType, viaPtr bool) {
+		if pt, ok := t.(*types.Pointer); ok {
+			t, viaPtr = pt.Elem(), true
+		}
 		n, ok := types.Unalias(t).(*types.Named)
-		return ok && n.Obj().Name() == "Type" && n.Obj().Pkg() != nil && strings.HasSuffix(n.Obj().Pkg().Path(), "/analyzer/ast")
+		return ok && n.Obj().Name() == "Type" && n.Obj().Pkg() != nil && strings.HasSuffix(n.Obj().Pkg().Path(), "/analyzer/ast"), viaPtr
 	}
+	// functions that use a parameter as a TypeCheck operand (directly or by handing it on): fn → parameter indices
+	checks := map[*types.Func]map[int]bool{}
+	decls := map[*types.Func]*ast.FuncDecl{}
 	for _, fd := range AllFuncDecls(p) {
+		if fn, ok := info.Defs[fd.Name].(*types.Func); ok {
+			decls[fn] = fd
+		}
+	}
+	operandIdents := func(call *ast.CallExpr, visit func(v *types.Var)) {
+		callee := CalleeOf(info, call)
+		var args []ast.Expr
+		switch {
+		case callee == e.roles.typeCheck && len(call.Args) >= 2:
+			args = call.Args[:2]
+		case callee != nil && checks[callee] != nil:
+			for i, a := range call.Args {
+				if checks[callee][i] {
+					args = append(args, a)
+				}
+			}
+		}
+		for _, a := range args {
+			ast.Inspect(a, func(x ast.Node) bool {
+				if id, ok := x.(*ast.Ident); ok {
+					if v, ok := info.Uses[id].(*types.Var); ok && !v.IsField() {
+						visit(v)
+					}
+				}
+				return true
+			})
+		}
+	}
+	for changed := true; changed; {
+		changed = false
+		for fn, fd := range decls {
+			f := r2sibFuncOf(c, p, fd)
+			ast.Inspect(fd.Body, func(n ast.Node) bool {
+				if call, ok := n.(*ast.CallExpr); ok {
+					operandIdents(call, func(v *types.Var) {
+						if i, isParam := f.params[v]; isParam {
+							if ok, _ := typeIface(v.Type()); ok && !checks[fn][i] {
+								if checks[fn] == nil {
+									checks[fn] = map[int]bool{}
+								}
+								checks[fn][i] = true
+								changed = true
+							}
+						}
+					})
+				}
+				return true
+			})
+		}
+	}
+
+	var fds []*ast.FuncDecl
+	for _, fd := range AllFuncDecls(p) {
+		fds = append(fds, fd)
+	}
+	for _, fd := range fds {
 		f := r2sibFuncOf(c, p, fd)
-		// parents
 		parent := map[ast.Node]ast.Node{}
 		var stack []ast.Node
 		ast.Inspect(fd.Body, func(n ast.Node) bool {
@@ -42,13 +103,193 @@ func ruleR3UnifySeed(c *Ctx) []Obligation {
 			stack = append(stack, n)
 			return true
 		})
+		// one unification site: a scope (loop body / helper body), its accumulator, the variables of the current
+		// alternative and the variables that encode its position
+		site := func(scope *ast.BlockStmt, key string, posNode ast.Node, acc types.Object, elemVars, posVars map[types.Object]bool) {
+			inScope := func(o types.Object) bool { return scope.Pos() <= o.Pos() && o.Pos() < scope.End() }
+			isAccTarget := func(l ast.Expr) bool {
+				l = ast.Unparen(l)
+				if st, ok := l.(*ast.StarExpr); ok {
+					l = ast.Unparen(st.X)
+				}
+				id, ok := l.(*ast.Ident)
+				return ok && info.Uses[id] == acc
+			}
+			var seeds []*ast.AssignStmt
+			ast.Inspect(scope, func(m ast.Node) bool {
+				as, ok := m.(*ast.AssignStmt)
+				if !ok || as.Tok != token.ASSIGN || len(as.Lhs) != len(as.Rhs) {
+					return true
+				}
+				for i, l := range as.Lhs {
+					if isAccTarget(l) && r2sibMentions(info, as.Rhs[i], elemVars) {
+						seeds = append(seeds, as)
+					}
+				}
+				return true
+			})
+			if len(seeds) == 0 {
+				out = append(out, Obligation{Key: key, Pos: c.Pos(posNode.Pos()), Status: Info, Detail: "checked against here but never seeded from an alternative in this scope"})
+				return
+			}
+			ob := Obligation{Key: key, Pos: c.Pos(seeds[0].Pos()), Nontrivial: true}
+			// state variables: the accumulator, locals that live across the iterations and are updated, and
+			// locals of the iteration computed from those (placeholder := acc.Kind() == …)
+			stateVars := map[types.Object]bool{acc: true}
+			for o, ds := range f.defs {
+				v, ok := o.(*types.Var)
+				if !ok || v.IsField() || inScope(v) || elemVars[v] || posVars[v] || f.isCounter(v) || len(ds) < 2 {
+					continue
+				}
+				if _, isParam := f.params[v]; isParam {
+					continue
+				}
+				for _, d := range ds {
+					if scope.Pos() <= d.pos && d.pos < scope.End() {
+						stateVars[v] = true
+					}
+				}
+			}
+			for changed := true; changed; {
+				changed = false
+				ast.Inspect(scope, func(x ast.Node) bool {
+					as, ok := x.(*ast.AssignStmt)
+					if !ok {
+						return true
+					}
+					for i, l := range as.Lhs {
+						id, ok := l.(*ast.Ident)
+						if !ok {
+							continue
+						}
+						o := f.objOf(id)
+						if o == nil || stateVars[o] || !inScope(o) || elemVars[o] {
+							continue
+						}
+						dep := i < len(as.Rhs) && r2sibMentions(info, as.Rhs[i], stateVars)
+						for n := parent[ast.Node(as)]; n != nil && n != ast.Node(scope) && !dep; n = parent[n] {
+							switch y := n.(type) {
+							case *ast.IfStmt:
+								dep = r2sibMentions(info, y.Cond, stateVars)
+							case *ast.SwitchStmt:
+								dep = y.Tag != nil && r2sibMentions(info, y.Tag, stateVars)
+							}
+						}
+						if dep {
+							stateVars[o] = true
+							changed = true
+						}
+					}
+					return true
+				})
+			}
+			var problems, oks []string
+			for _, seed := range seeds {
+				// guards: enclosing conditions up to the scope, and earlier `if c { continue / break / return }` siblings
+				var conds []ast.Expr
+				var cur ast.Node = seed
+				for cur != nil && cur != ast.Node(scope) {
+					pn := parent[cur]
+					var list []ast.Stmt
+					switch x := pn.(type) {
+					case *ast.IfStmt:
+						if x.Body == cur || x.Else == cur {
+							conds = append(conds, x.Cond)
+							if as, ok := x.Init.(*ast.AssignStmt); ok {
+								conds = append(conds, as.Rhs...)
+							}
+						}
+					case *ast.CaseClause:
+						conds = append(conds, x.List...)
+						if sw, ok := parent[parent[pn]].(*ast.SwitchStmt); ok && sw.Tag != nil {
+							conds = append(conds, sw.Tag)
+						}
+						list = x.Body
+					case *ast.BlockStmt:
+						list = x.List
+					}
+					for _, st := range list {
+						if st.Pos() >= cur.Pos() {
+							break
+						}
+						if ifs, ok := st.(*ast.IfStmt); ok && len(ifs.Body.List) > 0 {
+							switch l := ifs.Body.List[len(ifs.Body.List)-1].(type) {
+							case *ast.BranchStmt:
+								if l.Tok == token.CONTINUE || l.Tok == token.BREAK {
+									conds = append(conds, ifs.Cond)
+								}
+							case *ast.ReturnStmt:
+								conds = append(conds, ifs.Cond)
+							}
+						}
+					}
+					cur = pn
+				}
+				// the nearest guard that tests either the state or the position decides
+				state, pos := false, false
+				var stateNames, posNames []string
+				for _, cd := range conds {
+					cs, cp := false, false
+					var sn, pn []string
+					ast.Inspect(cd, func(x ast.Node) bool {
+						id, ok := x.(*ast.Ident)
+						if !ok {
+							return true
+						}
+						v, ok := info.Uses[id].(*types.Var)
+						if !ok || v.IsField() {
+							return true
+						}
+						switch {
+						case posVars[v] || f.isCounter(v):
+							cp = true
+							pn = append(pn, v.Name())
+						case stateVars[v]:
+							cs = true
+							sn = append(sn, v.Name())
+						}
+						return true
+					})
+					// a length is a position in disguise (how many alternatives were kept so far)
+					if strings.Contains(exprStr(cd), "len(") {
+						cp, cs = true, false
+						pn = append(pn, exprStr(cd))
+					}
+					if cs {
+						state, stateNames = true, sn
+						break
+					}
+					if cp {
+						pos, posNames = true, pn
+						break
+					}
+				}
+				where := c.Pos(seed.Pos())
+				switch {
+				case state:
+					oks = append(oks, fmt.Sprintf("%s (%s) under a test of %s", exprStr(seed.Lhs[0])+" = "+exprStr(seed.Rhs[0]), where, strings.Join(r3usUniq(stateNames), ", ")))
+				case pos:
+					problems = append(problems, fmt.Sprintf("`%s = %s` (%s) is guarded only by the position of the alternative (%s): a first alternative of type never/unknown freezes the result, the later alternatives are then checked against never (always compatible) and are not unified with each other", exprStr(seed.Lhs[0]), exprStr(seed.Rhs[0]), where, strings.Join(r3usUniq(posNames), ", ")))
+				default:
+					problems = append(problems, fmt.Sprintf("`%s = %s` (%s) is not guarded by any test of the accumulator's state: every alternative overwrites the type the earlier ones were checked against", exprStr(seed.Lhs[0]), exprStr(seed.Rhs[0]), where))
+				}
+			}
+			if len(problems) > 0 {
+				ob.Status = Violated
+				ob.Detail = strings.Join(problems, "; ")
+			} else {
+				ob.Detail = "seeded " + strings.Join(oks, "; ")
+			}
+			out = append(out, ob)
+		}
+
+		// form 1: loops with a loop-carried accumulator
 		ast.Inspect(fd.Body, func(n ast.Node) bool {
 			loop, ok := n.(*ast.RangeStmt)
 			if !ok {
 				return true
 			}
-			loopVars := r2sibLoopVars(info, loop)
-			if len(loopVars) == 0 {
+			if len(r2sibLoopVars(info, loop)) == 0 {
 				return true
 			}
 			elemVars := map[types.Object]bool{}
@@ -65,26 +306,18 @@ func ruleR3UnifySeed(c *Ctx) []Obligation {
 			}
 			r2sibDerived(f, loop.Body, elemVars)
 			inLoop := func(o types.Object) bool { return loop.Pos() <= o.Pos() && o.Pos() < loop.End() }
-			// accumulators: Type-valued locals declared before the loop that are TypeCheck operands inside it
 			accs := map[types.Object]bool{}
 			ast.Inspect(loop.Body, func(m ast.Node) bool {
 				if _, ok := m.(*ast.RangeStmt); ok && m != ast.Node(loop) {
 					return false // nested loops have their own accumulators
 				}
-				call, ok := m.(*ast.CallExpr)
-				if !ok || CalleeOf(info, call) != e.roles.typeCheck {
-					return true
-				}
-				for _, a := range call.Args[:2] {
-					ast.Inspect(a, func(x ast.Node) bool {
-						if id, ok := x.(*ast.Ident); ok {
-							if v, ok := info.Uses[id].(*types.Var); ok && !v.IsField() && isTypeIface(v.Type()) && !inLoop(v) {
-								if _, isParam := f.params[v]; !isParam {
-									accs[v] = true
-								}
+				if call, ok := m.(*ast.CallExpr); ok {
+					operandIdents(call, func(v *types.Var) {
+						if ok, viaPtr := typeIface(v.Type()); ok && !viaPtr && !inLoop(v) {
+							if _, isParam := f.params[v]; !isParam {
+								accs[v] = true
 							}
 						}
-						return true
 					})
 				}
 				return true
@@ -95,185 +328,77 @@ func ruleR3UnifySeed(c *Ctx) []Obligation {
 			}
 			sort.Slice(accList, func(i, j int) bool { return accList[i].Pos() < accList[j].Pos() })
 			for _, acc := range accList {
-				// seeds: assignments acc = <term of the current alternative> inside the loop
-				var seeds []*ast.AssignStmt
+				key := fmt.Sprintf("homescript/analyzer.%s|loop over %s|accumulator %s", FuncName(fd), f.pretty(f.norm(loop.X)), acc.Name())
+				// check and seed of the iteration both live in a helper that gets the accumulator by pointer: form 2 decides
+				seededHere := false
 				ast.Inspect(loop.Body, func(m ast.Node) bool {
-					as, ok := m.(*ast.AssignStmt)
-					if !ok || as.Tok != token.ASSIGN || len(as.Lhs) != len(as.Rhs) {
-						return true
-					}
-					for i, l := range as.Lhs {
-						if id, ok := ast.Unparen(l).(*ast.Ident); ok && info.Uses[id] == acc && r2sibMentions(info, as.Rhs[i], elemVars) {
-							seeds = append(seeds, as)
+					if as, ok := m.(*ast.AssignStmt); ok && as.Tok == token.ASSIGN {
+						for _, l := range as.Lhs {
+							if id, ok := ast.Unparen(l).(*ast.Ident); ok && info.Uses[id] == acc {
+								seededHere = true
+							}
 						}
 					}
 					return true
 				})
-				key := fmt.Sprintf("homescript/analyzer.%s|loop over %s|accumulator %s", FuncName(fd), f.pretty(f.norm(loop.X)), acc.Name())
-				if len(seeds) == 0 {
-					out = append(out, Obligation{Key: key, Pos: c.Pos(loop.Pos()), Status: Info, Detail: "checked against in the loop but never seeded from an alternative inside it"})
+				if !seededHere && r3usPassedByPointer(info, loop.Body, acc) {
 					continue
 				}
-				ob := Obligation{Key: key, Pos: c.Pos(seeds[0].Pos()), Nontrivial: true}
-				var problems, oks []string
-				for _, seed := range seeds {
-					// guards: enclosing conditions up to the loop body, and earlier `if c { continue / break / return }` siblings
-					var conds []ast.Expr
-					var cur ast.Node = seed
-					for cur != nil && cur != ast.Node(loop.Body) {
-						pn := parent[cur]
-						switch x := pn.(type) {
-						case *ast.IfStmt:
-							if x.Body == cur || x.Else == cur {
-								conds = append(conds, x.Cond)
-								if x.Init != nil {
-									if as, ok := x.Init.(*ast.AssignStmt); ok {
-										conds = append(conds, as.Rhs...)
-									}
-								}
-							}
-						case *ast.CaseClause:
-							conds = append(conds, x.List...)
-							if sw, ok := parent[parent[pn]].(*ast.SwitchStmt); ok && sw.Tag != nil {
-								conds = append(conds, sw.Tag)
-							}
-						case *ast.BlockStmt:
-							for _, st := range x.List {
-								if st.Pos() >= cur.Pos() {
-									break
-								}
-								if ifs, ok := st.(*ast.IfStmt); ok && len(ifs.Body.List) > 0 {
-									switch l := ifs.Body.List[len(ifs.Body.List)-1].(type) {
-									case *ast.BranchStmt:
-										if l.Tok == token.CONTINUE || l.Tok == token.BREAK {
-											conds = append(conds, ifs.Cond)
-										}
-									case *ast.ReturnStmt:
-										conds = append(conds, ifs.Cond)
-									}
-								}
-							}
-						}
-						cur = pn
-					}
-					// state variables: the accumulator, locals that live across the iterations and are updated, and
-					// locals of the iteration computed from those (placeholder := acc.Kind() == …)
-					stateVars := map[types.Object]bool{acc: true}
-					for o, ds := range f.defs {
-						v, ok := o.(*types.Var)
-						if !ok || v.IsField() || inLoop(v) || elemVars[v] || posVars[v] || f.isCounter(v) || len(ds) < 2 {
-							continue
-						}
-						if _, isParam := f.params[v]; isParam {
-							continue
-						}
-						updatedInLoop := false
-						for _, d := range ds {
-							if loop.Body.Pos() <= d.pos && d.pos < loop.Body.End() {
-								updatedInLoop = true
-							}
-						}
-						if updatedInLoop {
-							stateVars[v] = true
-						}
-					}
-					for changed := true; changed; {
-						changed = false
-						ast.Inspect(loop.Body, func(x ast.Node) bool {
-							as, ok := x.(*ast.AssignStmt)
-							if !ok {
-								return true
-							}
-							for i, l := range as.Lhs {
-								id, ok := l.(*ast.Ident)
-								if !ok {
-									continue
-								}
-								o := f.objOf(id)
-								if o == nil || stateVars[o] || !inLoop(o) || elemVars[o] {
-									continue
-								}
-								dep := i < len(as.Rhs) && r2sibMentions(info, as.Rhs[i], stateVars)
-								// assigned under a condition / switch over a state variable
-								for n := parent[ast.Node(as)]; n != nil && n != ast.Node(loop.Body) && !dep; n = parent[n] {
-									switch y := n.(type) {
-									case *ast.IfStmt:
-										dep = r2sibMentions(info, y.Cond, stateVars)
-									case *ast.SwitchStmt:
-										dep = y.Tag != nil && r2sibMentions(info, y.Tag, stateVars)
-									}
-								}
-								if dep {
-									stateVars[o] = true
-									changed = true
-								}
-							}
-							return true
-						})
-					}
-					// the nearest guard that tests either the state or the position decides
-					state, pos := false, false
-					var stateNames, posNames []string
-					for _, cd := range conds {
-						cs, cp := false, false
-						var sn, pn []string
-						ast.Inspect(cd, func(x ast.Node) bool {
-							id, ok := x.(*ast.Ident)
-							if !ok {
-								return true
-							}
-							v, ok := info.Uses[id].(*types.Var)
-							if !ok || v.IsField() {
-								return true
-							}
-							switch {
-							case posVars[v] || f.isCounter(v):
-								cp = true
-								pn = append(pn, v.Name())
-							case stateVars[v]:
-								cs = true
-								sn = append(sn, v.Name())
-							}
-							return true
-						})
-						// a length is a position in disguise (how many alternatives were kept so far)
-						if strings.Contains(exprStr(cd), "len(") {
-							cp, cs = true, false
-							pn = append(pn, exprStr(cd))
-						}
-						if cs {
-							state = true
-							stateNames = sn
-							break
-						}
-						if cp {
-							pos = true
-							posNames = pn
-							break
-						}
-					}
-					where := c.Pos(seed.Pos())
-					switch {
-					case state:
-						oks = append(oks, fmt.Sprintf("%s (%s) under a test of %s", exprStr(seed.Lhs[0])+" = "+exprStr(seed.Rhs[0]), where, strings.Join(r3usUniq(stateNames), ", ")))
-					case pos:
-						problems = append(problems, fmt.Sprintf("`%s = %s` (%s) is guarded only by the position of the alternative (%s): a first alternative of type never/unknown freezes the result, the later alternatives are then checked against never (always compatible) and are not unified with each other", exprStr(seed.Lhs[0]), exprStr(seed.Rhs[0]), where, strings.Join(r3usUniq(posNames), ", ")))
-					default:
-						problems = append(problems, fmt.Sprintf("`%s = %s` (%s) is not guarded by any test of the accumulator's state: every alternative overwrites the type the earlier ones were checked against", exprStr(seed.Lhs[0]), exprStr(seed.Rhs[0]), where))
-					}
-				}
-				if len(problems) > 0 {
-					ob.Status = Violated
-					ob.Detail = strings.Join(problems, "; ")
-				} else {
-					ob.Detail = "seeded " + strings.Join(oks, "; ")
-				}
-				out = append(out, ob)
+				site(loop.Body, key, loop, acc, elemVars, posVars)
 			}
 			return true
 		})
+
+		// form 2: a helper that receives the accumulator by pointer and both checks and seeds it
+		fn, _ := info.Defs[fd.Name].(*types.Func)
+		if fn == nil {
+			continue
+		}
+		var ptrParams []types.Object
+		for o, i := range f.params {
+			if ok, viaPtr := typeIface(o.Type()); ok && viaPtr && checks[fn][i] {
+				ptrParams = append(ptrParams, o)
+			}
+		}
+		sort.Slice(ptrParams, func(i, j int) bool { return ptrParams[i].Pos() < ptrParams[j].Pos() })
+		for _, acc := range ptrParams {
+			elemVars := map[types.Object]bool{}
+			posVars := map[types.Object]bool{}
+			for o := range f.params {
+				if o == acc {
+					continue
+				}
+				if b, ok := o.Type().Underlying().(*types.Basic); ok && b.Info()&types.IsInteger != 0 {
+					posVars[o] = true
+				} else {
+					elemVars[o] = true
+				}
+			}
+			r2sibDerived(f, fd.Body, elemVars)
+			key := fmt.Sprintf("homescript/analyzer.%s|accumulator *%s", FuncName(fd), acc.Name())
+			site(fd.Body, key, fd, acc, elemVars, posVars)
+		}
 	}
+	sort.SliceStable(out, func(i, j int) bool { return out[i].Key < out[j].Key })
 	return out
+}
+
+// r3usPassedByPointer: &acc is an argument of a call in the scope.
+func r3usPassedByPointer(info *types.Info, scope ast.Node, acc types.Object) bool {
+	hit := false
+	ast.Inspect(scope, func(n ast.Node) bool {
+		if call, ok := n.(*ast.CallExpr); ok {
+			for _, a := range call.Args {
+				if u, ok := ast.Unparen(a).(*ast.UnaryExpr); ok && u.Op == token.AND {
+					if id, ok := ast.Unparen(u.X).(*ast.Ident); ok && info.Uses[id] == acc {
+						hit = true
+					}
+				}
+			}
+		}
+		return true
+	})
+	return hit
 }
 
 func r3usUniq(xs []string) []string {
